@@ -261,8 +261,8 @@ let dispatch (f : string) (args : sx list) : sx =
         | DManifest -> A "manifest" in
       L [ L (SL.map (fun e -> L [sx_of_str e.e_name; sx_of_bool e.e_stored; pl e.e_data]) es);
           L (SL.map (fun (a, b) -> L [sx_of_str a; sx_of_str b]) man) ]
-  | "pkg_addobject", [pf; n; nm] ->
-      let (c, r) = Package.add_object (str_of_sx pf) (nat_of_sx n) (ODoc ([], [], false, [], [])) (opt_of_sx str_of_sx nm) in
+  | "pkg_addobject", [pf; L taken; nm] ->
+      let (c, r) = Package.add_object (str_of_sx pf) (SL.map str_of_sx taken) (ODoc ([], [], false, [], [])) (opt_of_sx str_of_sx nm) in
       L [sx_of_str (o_folder c); sx_of_str r]
   | "pkg_classify", [L man; p] ->
       let m = SL.map (function L [a; b] -> (str_of_sx a, str_of_sx b) | _ -> failwith "man") man in
